@@ -312,7 +312,9 @@ pub enum Tok {
     },
     List {
         name: Vec<u8>,
+        #[serde(default)]
         valid: bool,
+        #[serde(default)]
         txt: String,
     },
     Int {
@@ -484,6 +486,9 @@ pub fn fill_txt(ts: &mut [Tok]) {
                     let h = "#".repeat(need);
                     *txt = format!("r{h}\"{p}\"{h}");
                 }
+            }
+            Tok::List { name, txt, .. } if txt.is_empty() => {
+                *txt = format!("${}", String::from_utf8_lossy(name));
             }
             Tok::Wild { v, txt, .. } if txt.is_empty() => {
                 let mut s = String::from("\"");
